@@ -309,6 +309,7 @@ pub fn run(args: &Args) -> ! {
     // ---- (1) solo runs: lock programs and the menu
     let mut programs: Vec<(String, Vec<String>)> = Vec::new();
     let mut menu: Vec<usize> = Vec::new();
+    let mut same_program: Vec<(String, String)> = Vec::new();
     let all: Vec<usize> = (0..cands.len()).collect();
     for (i, (name, _)) in cands.iter().enumerate() {
         let (scn, kinds) = scenario_for(&cands, &all, &[i], false);
@@ -329,7 +330,14 @@ pub fn run(args: &Args) -> ! {
             }
         }
         if writes || nested {
-            menu.push(i);
+            // one representative per distinct lock program (messages with the same program have
+            // the same synchronisation behaviour); the others are listed in the evidence
+            let prog_wo_ids: Vec<String> = prog.clone();
+            if let Some(&rep) = menu.iter().find(|m| programs[**m].1 == prog_wo_ids) {
+                same_program.push((name.clone(), cands[rep].0.clone()));
+            } else {
+                menu.push(i);
+            }
         }
         acc.with(|st| {
             st.eval(!prog.is_empty());
@@ -468,6 +476,7 @@ pub fn run(args: &Args) -> ! {
     rep.set("traces_validated_against_impl", json!(tot.executions));
     rep.set("schedules", json!(tot.executions));
     rep.set("menu", json!(menu_names));
+    rep.set("same_lock_program_as", json!(same_program));
     rep.set("lock_programs", json!(programs.iter().map(|(n, p)| json!({"message": n, "program": p})).collect::<Vec<_>>()));
     rep.set("lock_order_edges", json!(mon.edges.iter().map(|((a, b), k)| format!("{a}→{b} ({k})")).collect::<Vec<_>>()));
     rep.assumptions = vec![
